@@ -177,6 +177,7 @@ func checkC01(w *World, r *Report) {
 	checkHeapSendDiscipline(w, r, "C01.R5")
 	checkHeapTable(w, r, "C01.R8")
 	ruleFormatExchange(w, r, "C01")
+	ruleInitChannel(w, r, "C01")
 	ruleDistributor(w, r, "C01")
 	ruleDecorExchange(w, r, "C01")
 	ruleDecorAlwaysCalled(w, r, "C01")
@@ -489,6 +490,7 @@ func checkC03(w *World, r *Report) {
 	ruleStateAgrees(w, r, "C03")
 	ruleNoListenerNoOutput(w, r, "C03")
 	ruleCursorUp(w, r, "C03")
+	ruleFlushReturnsErrors(w, r, "C03")
 	ruleTriggerCancels(w, r, "C03")
 }
 
@@ -650,6 +652,7 @@ func checkC13(w *World, r *Report) {
 	checkLateResults(w, r, "C13.R3")
 	ruleDelayWriter(w, r, "C13")
 	ruleCursorUp(w, r, "C13")
+	ruleFlushReturnsErrors(w, r, "C13")
 	ruleStateAgrees(w, r, "C13")
 	// rows are written only inside flush
 	fl := w.flushFn()
@@ -1304,6 +1307,7 @@ func checkC15(w *World, r *Report) {
 	ruleErrorPrintedOnce(w, r, "C15")
 	ruleErrorPropagation(w, r, "C15")
 	ruleFlushWrites(w, r, "C15")
+	ruleFlushReturnsErrors(w, r, "C15")
 	checkProducerClose(w, r, "C15")
 	checkOneFrame(w, r, "C15")
 	fi := w.analyseFlush()
